@@ -18,7 +18,7 @@ func dl(name string) rh.Op { return rh.Op{Code: rh.OpDLookup, Name: name} }
 
 // Fixed regression histories (the situations the property text names).
 func fixed() ([]string, map[string][]rh.Op) {
-	names := []string{"exact-over-wildcard", "wildcard-one-level", "case-insensitive", "lowest-metric", "forward-and-agent"}
+	names := []string{"exact-over-wildcard", "wildcard-one-level", "degenerate-wildcards", "case-insensitive", "lowest-metric", "forward-and-agent"}
 	return names, map[string][]rh.Op{
 		"exact-over-wildcard": {
 			dadv(1, 1, 1, "*.example.com", 0), dadv(2, 2, 1, "api.example.com", 9),
@@ -27,6 +27,11 @@ func fixed() ([]string, map[string][]rh.Op) {
 		"wildcard-one-level": {
 			dadv(1, 1, 1, "*.example.com", 1), dadv(1, 1, 1, "*.b.example.com", 1),
 			dl("a.example.com"), dl("a.b.example.com"), dl("a.c.example.com"), dl("x.a.b.example.com"), dl(".example.com"), dl("example.com"), dl("a.example.com."),
+		},
+		// empty label / empty base / blanks: none of these lookups may match
+		"degenerate-wildcards": {
+			dadv(1, 1, 1, "*.", 1), dadv(1, 1, 1, "*.example.com", 1), dadv(1, 1, 1, " *.test.com ", 1), dadv(1, 1, 1, "*.*.example.com", 3),
+			dl("a."), dl("."), dl("a.."), dl(".example.com"), dl("..example.com"), dl("a.test.com"), dl("x.*.example.com"), dl("*.example.com"), dl(" a.test.com"),
 		},
 		"case-insensitive": {
 			dadv(1, 1, 1, "API.Example.COM", 3), dadv(2, 2, 1, "*.EXAMPLE.com", 1), dadv(2, 3, 1, "api.example.com", 2),
